@@ -62,7 +62,9 @@ def load(path):
 
 
 out = {"pydantic_available": B.PYDANTIC_AVAILABLE, "reports": []}
-for c in cases:
+
+
+def process(c):
     rep = {}
     try:
         if c["kind"] in ("model", "invariant", "spec_example"):
@@ -112,5 +114,42 @@ for c in cases:
     except Exception as e:  # noqa
         rep["ok"] = False
         rep["err"] = f"{type(e).__name__}: {str(e)[:200]}"
-    out["reports"].append(rep)
+    return rep
+
+
+N_THREADS = int(os.environ.get("VF_THREADS", "0") or 0)
+if N_THREADS > 1:
+    # several threads validate the same case at the same moment (for a class this is its first use in the process): a
+    # server dispatching from a thread pool. Every thread must see what a single thread sees; the report handed back is
+    # one that differs from the first thread's, if there is any
+    import threading
+    sys.setswitchinterval(1e-6)
+    out["threads"] = N_THREADS
+    out["thread_disagreements"] = 0
+    for c in cases:
+        barrier = threading.Barrier(N_THREADS)
+        reps = [None] * N_THREADS
+
+        def work(i, c=c):
+            try:
+                barrier.wait(timeout=10)
+            except Exception:  # noqa
+                pass
+            reps[i] = process(c)
+        ths = [threading.Thread(target=work, args=(i,)) for i in range(N_THREADS)]
+        for t in ths:
+            t.start()
+        for t in ths:
+            t.join()
+        chosen = reps[0]
+        for r in reps[1:]:
+            if repr(r) != repr(reps[0]):
+                chosen = r if (r or {}).get("ok") or not (reps[0] or {}).get("ok") else reps[0]
+                out["thread_disagreements"] += 1
+                chosen = dict(chosen or {}, thread_disagreement=[repr(reps[0])[:300], repr(r)[:300]])
+                break
+        out["reports"].append(chosen)
+else:
+    for c in cases:
+        out["reports"].append(process(c))
 pickle.dump(out, open(outp, "wb"))
